@@ -58,6 +58,7 @@ class Run(typing.NamedTuple):
     fault: typing.Optional[str]     # None | syscall name | "unknown-user" | "unknown-group"
     servertype: str
     tls: bool
+    detach: bool = False            # detach = yes: the launcher forks and exits, the daemon child goes on
 
     @property
     def combo(self) -> str:
@@ -65,11 +66,12 @@ class Run(typing.NamedTuple):
         return "+".join(parts) or "none"
 
     def sig(self) -> tuple:
-        return (self.combo, self.fault or "-", self.servertype, "tls" if self.tls else "plain")
+        return (self.combo, self.fault or "-", self.servertype, "tls" if self.tls else "plain") + \
+            (("detached",) if self.detach else ())
 
     def as_dict(self) -> dict:
         return {"combo": self.combo, "fault": self.fault, "servertype": self.servertype,
-                "tls": self.tls}
+                "tls": self.tls, "detach": self.detach}
 
 
 def expected_calls(r: Run) -> typing.List[str]:
@@ -113,6 +115,12 @@ def plan(tier: str) -> typing.List[Run]:
         # a value of usechroot that is no boolean must abort start-up, not silently mean 'no chroot'
         runs.append(Run(True, False, False, "unknown-usechroot-value", st, tls))
         runs.append(Run(True, True, True, "unknown-usechroot-value", st, tls))
+    # the same start-up as a daemon (detach = yes): every combination; faults on the full combination
+    # (quick) or on every combination (thorough)
+    for r in list(runs):
+        if r.fault is None or (r.fault and not r.fault.startswith("unknown-") and r.fault != "chdir"
+                               and (tier == "thorough" or (r.chroot and r.uid and r.gid))):
+            runs.append(r._replace(detach=True))
     return runs
 
 
@@ -129,14 +137,15 @@ def _first_string_arg(args: str) -> typing.Optional[str]:
     return m.group(1) if m else None
 
 
-def startup_events(trace: typing.List[spdriver.Sys], main_pid: int, port: int,
+def startup_events(trace: typing.List[spdriver.Sys], main_pid: typing.Union[int, typing.Collection[int]], port: int,
                    cert: str, key: str) -> typing.Tuple[typing.List[Ev], typing.Optional[int]]:
-    """The ordered start-up relevant events of the server's main process and the fd of
-    its listening socket."""
+    """The ordered start-up relevant events of the server's main process (for a detaching
+    start-up: of the launcher and then of the daemon it forks) and the fd of its listening socket."""
     out: typing.List[Ev] = []
     listen_fd: typing.Optional[int] = None
+    pids = {main_pid} if isinstance(main_pid, int) else set(main_pid)
     for s in trace:
-        if s.pid != main_pid:
+        if s.pid not in pids:
             continue
         inj = "INJECTED" in s.err
         if s.name == "bind":
@@ -343,6 +352,8 @@ def execute(env: Env, r: Run, tag: str, token: str, kind: str = "unrelated") -> 
     yes = {"unrelated": "yes", "prefix-sibling": "on", "inside-root": "true", "root-itself": "1"}[kind]
     no = ("no", "off", "false", "0")[sum(map(ord, tag)) % 4]
     over: typing.Dict[str, typing.Optional[str]] = {"usechroot": yes if r.chroot else no}
+    if r.detach:
+        over["detach"] = ("yes", "on", "true", "1")[sum(map(ord, tag)) % 4]
     if r.fault == "unknown-usechroot-value":
         over["usechroot"] = ("enabled", "y", "si")[sum(map(ord, tag)) % 3]
     if r.uid:
@@ -373,7 +384,20 @@ def execute(env: Env, r: Run, tag: str, token: str, kind: str = "unrelated") -> 
             o.ready = sp.wait_ready(READY_TIMEOUT)
             if o.ready:
                 pid = sp.pid
+                if r.detach:
+                    # the launcher has exited; the daemon is the other live python process of the session
+                    launcher = pid
+                    pid = None
+                    for _ in range(200):
+                        live = [p for p, state, _pp in spdriver.session_members(sp.sid)
+                                if p not in (sp.popen.pid, launcher) and state != "Z"]
+                        if live:
+                            pid = live[0]
+                            break
+                        time.sleep(0.01)
                 try:
+                    if pid is None:
+                        raise OSError("no daemon process found in the session")
                     o.status = spdriver.proc_status(pid)
                     o.root_link = os.readlink("/proc/%d/root" % pid)
                     o.cwd_link = os.readlink("/proc/%d/cwd" % pid)
@@ -429,10 +453,19 @@ def execute(env: Env, r: Run, tag: str, token: str, kind: str = "unrelated") -> 
             o.syscalls[s.name] = o.syscalls.get(s.name, 0) + 1
     if trace:
         o.main_pid = trace[0].pid
-        o.events, o.listen_fd = startup_events(trace, o.main_pid, sp.port, env.cert, env.key)
+        lineage = [o.main_pid]
+        if r.detach:
+            # the detaching fork is the first one of the start-up: the daemon is the first other pid traced
+            daemon = next((s.pid for s in trace if s.pid != o.main_pid), None)
+            if daemon is not None:
+                lineage.append(daemon)
+                o.exited = None
+        o.events, o.listen_fd = startup_events(trace, lineage, sp.port, env.cert, env.key)
         for s in trace:
-            if s.pid == o.main_pid and s.name == "+++exit" and o.exited is None:
+            if s.pid == lineage[-1] and s.name == "+++exit" and o.exited is None:
                 o.exited = int(s.args)
+        if r.detach:
+            o.daemon_pid = lineage[-1] if len(lineage) > 1 else None  # type: ignore[attr-defined]
     o.root_cfg = root  # type: ignore[attr-defined]
     o.port = sp.port   # type: ignore[attr-defined]
     o.wall = time.monotonic() - t0
@@ -736,7 +769,7 @@ def main() -> int:
     chk = Check(PID, "fault_enumeration")
     ok, why = spdriver.strace_works()
     problems = oracle_selftest()
-    rule = ("one case = (option combination, injected fault, server type, TLS); distinct = "
+    rule = ("one case = (option combination, injected fault, server type, TLS, detach); distinct = "
             "distinct such tuples for which the real server was started under strace and its "
             "main process's trace was recorded")
     assumptions = [
@@ -768,9 +801,11 @@ def main() -> int:
         for w in chk.replay_case.get("witnesses", []):
             d = w.get("run") if isinstance(w, dict) else None
             if d:
-                wanted.append((d["combo"], d["fault"], d["servertype"], d["tls"]))
+                wanted.append((d["combo"], d["fault"], d["servertype"], d["tls"], d.get("detach", False)))
         if wanted:
-            runs = [r for r in runs if (r.combo, r.fault, r.servertype, r.tls) in wanted] or runs
+            runs = [r for r in runs if (r.combo, r.fault, r.servertype, r.tls, r.detach) in wanted] or runs
+    if mode != "strace":
+        runs = [r for r in runs if not r.detach]
     chk.rng.shuffle(runs)
     sample_traces: typing.List[dict] = []
     exit_codes: typing.Dict[str, int] = {}
